@@ -23,6 +23,8 @@ CONFIGS = [
     {"R": "%", "S": ";", "K": "`", "C": "{", "Y": "}", "F": "%%", "U": "%;", "I": ";;"},
     # prefix-related in the other direction, and pairs / chains of multi-character spellings
     {"U": "%%", "I": "%"}, {"F": "%", "R": "%%"}, {"S": "%%", "K": "%%+"}, {"R": "%%", "F": "%%^"}, {"K": "##", "Y": "##~", "C": "###"},
+    # a name-like spelling that is the prefix of a longer one continuing with punctuation
+    {"K": "_#"}, {"C": "c", "K": "c#"},
     {"R": "$r", "S": "$s", "K": "$k", "C": "$c"}, {"F": "^", "Y": "^~"}, {"R": "$$$", "S": "$$", "K": "$"}, {"K": "#k#"}, {"C": "%"},
     {"U": "%%", "I": "%"}, {"S": "@", "C": "@_", "K": "@#", "Y": "@~"}, {"U": "`", "I": "``"}, {"R": "{", "F": "{{", "S": "}"},
 ]
@@ -68,7 +70,7 @@ def plan(tier: str, seed: int) -> Plan:
     T = 150 if thorough else 45
     conds: List[Condition] = []
     obls: List[Obligation] = []
-    configs = CONFIGS if thorough else CONFIGS[:14]
+    configs = CONFIGS if thorough else CONFIGS[:16]
     for ci, tokens in enumerate(configs):
         used = [t for t in TEMPLATES if any("{" + k + "}" in t[0] for k in tokens)]
         rest = [t for t in TEMPLATES if t not in used]
@@ -90,5 +92,5 @@ def plan(tier: str, seed: int) -> Plan:
             "recompiles in that environment to the same structure and is a fixed point; symbolically, the custom query, the default "
             "query and the recompiled string form return the same matches on a symbolic document and filter context."),
         assumptions=["token assignments are concrete (they are compiled into the lexer's regular expression)"],
-        outside=["spellings that collide with other JSONPath syntax", "assignments outside the 23-configuration pool"],
+        outside=["spellings that collide with other JSONPath syntax", "assignments outside the 25-configuration pool"],
     )
